@@ -76,7 +76,9 @@ MUTATIONS = [
     ('w-glob-no-normalize', 'C06', T, "                    inner = normalize_path(outer + path + (child,))", "                    inner = outer + path + (child,)"),
     ('w-emit-no-unit-conversion', 'C12', S, "                if self.units:\n                    return self.serializer.serialize(\n                        self.value.to(self.units))", "                if False:\n                    pass"),
     ('w-units-not-normalised', 'C08', S, "                self.value = self.value.to(self.units)", "                pass"),
-    ('w-inverse-ignores-path', 'C06', T, "                    inner = normalize_path(outer + path.pop('_path'))\n\n                    for update_key", "                    path.pop('_path')\n                    inner = outer\n\n                    for update_key"),
+    ('w-inverse-ignores-path', 'C06', T, "                    inner = normalize_path(outer + path.pop('_path'))\n                else:\n                    inner = outer\n\n                # variables", "                    path.pop('_path')\n                    inner = outer\n                else:\n                    inner = outer\n\n                # variables"),
+    # the defect fixed by 859861a, re-created: unlisted variables only routed when a `_path` is given
+    ('w-unlisted-dropped-without-path', 'C06', T, "                if isinstance(value, dict):\n                    for update_key in value.keys():", "                if isinstance(value, dict) and '_path' in topology[key]:\n                    for update_key in value.keys():"),
     ('w-view-whole-store', 'C07', S, "            for key, subschema in schema.items():\n                path = topology.get(key)\n                if key == '*':", "            for key, subschema in list(schema.items()):\n                path = topology.get(key)\n                if isinstance(subschema, dict) and not (set(subschema) & self.schema_keys) and key != '*' and not isinstance(path, dict):\n                    node_ = self.get_path(path if path is not None else (key,))\n                    subschema = dict(subschema, **{k_: {} for k_ in (node_.inner if node_ else {})})\n                if key == '*':"),
     ('w-default-ignored', 'C15', S, "            if self.value is None:\n                self.value = self.default", "            if self.value is None:\n                self.value = self.default if not isinstance(self.default, int) or self.default < 40 else 0"),
     # parallel (hand-ported from seeded changes whose patches no longer apply)
